@@ -10,7 +10,7 @@
  N custom variant goes through the same internal routine and lowers the depth keeping every
    coarse cell that had a deeper entry."""
 from sym import Engine, show, C, walk
-from rules.common import strip_generics, cmp_facts, param, run_fn
+from rules.common import strip_generics, cmp_facts, param, run_fn, argv, is_view_of
 from rules import haversine
 from rules.cone import Recur, Internal, discard_only_beyond_max, minmax_provenance, PUSH, TSHS, L
 
@@ -58,7 +58,7 @@ def drivers(ctx, crate, rec, it):
             if d.args[0] == start and d.args[4] == R and d.args[2] == param("cone_lon") and d.args[3] == param("cone_lat") \
                     and d.args[1] == ('op', 'add', 'u8', ('fld', ('deref', param("self")), crate.field_index("nested::Layer", "depth")), C('u8', 1)):
                 for a in arrs:
-                    if a.args[0] == R and a.args[1] == d.ret: okd = True
+                    if a.args[0] == R and is_view_of(argv(a, 1), d.ret): okd = True
                 det = "distances(from=%s, to=%s, radius=%s)" % (show(d.args[0]), show(d.args[1]), show(d.args[4]))
         ctx.report(clause, "internal:recursion-entry(start=%s)" % show(start), ok0 and okd,
                    "recursion entered at depth %s with bound index %s; bounds = %s → to_shs_min_max_array(cone_radius, ·)" % (show(start), show(ev.args[ri]), det), at=ev.at, kind="N",
